@@ -169,6 +169,36 @@ DRV_OP(ab_ndarrw) {
     });
 }
 
+// ab_compare <B|S|O|A|D|T|M|G> : NamedEntity::compare of an entity of that kind with an uninitialised one, and with itself
+//   => ok <answer class of compare(uninitialised)> <compare(itself)>
+DRV_OP(ab_compare) {
+    if (a.size() != 2) throw ProtoError("ab_compare arity");
+    return guarded([&]() {
+        std::string path = scratch("compare.nix");
+        nix::File f = nix::File::open(path, nix::FileMode::Overwrite);
+        nix::Block b = f.createBlock("b", "t");
+        std::string r, self;
+        auto cls = [&](const std::function<int()> &call) {
+            std::string x = guarded([&]() { return std::to_string(call()); });
+            return x.substr(0, 4) == "err " ? x.substr(4) : x.substr(0, 3) == "ok " ? x.substr(3) : x;
+        };
+        switch (a[1][0]) {
+        case 'B': { nix::Block u; r = cls([&]() { return b.compare(u); }); self = cls([&]() { return b.compare(b); }); break; }
+        case 'S': { nix::Section e = f.createSection("s", "t"), u; r = cls([&]() { return e.compare(u); }); self = cls([&]() { return e.compare(e); }); break; }
+        case 'O': { nix::Source e = b.createSource("s", "t"), u; r = cls([&]() { return e.compare(u); }); self = cls([&]() { return e.compare(e); }); break; }
+        case 'A': { nix::DataArray e = b.createDataArray("a", "t", nix::DataType::Double, nix::NDSize({2})), u; r = cls([&]() { return e.compare(u); }); self = cls([&]() { return e.compare(e); }); break; }
+        case 'D': { nix::DataFrame e = b.createDataFrame("d", "t", {{"c", "", nix::DataType::Double}}), u; r = cls([&]() { return e.compare(u); }); self = cls([&]() { return e.compare(e); }); break; }
+        case 'T': { nix::Tag e = b.createTag("t", "t", {1.0}), u; r = cls([&]() { return e.compare(u); }); self = cls([&]() { return e.compare(e); }); break; }
+        case 'M': { nix::DataArray p = b.createDataArray("p", "t", nix::DataType::Double, nix::NDSize({2})); nix::MultiTag e = b.createMultiTag("m", "t", p), u;
+                    r = cls([&]() { return e.compare(u); }); self = cls([&]() { return e.compare(e); }); break; }
+        case 'G': { nix::Group e = b.createGroup("g", "t"), u; r = cls([&]() { return e.compare(u); }); self = cls([&]() { return e.compare(e); }); break; }
+        default: throw ProtoError("ab_compare kind");
+        }
+        f.close();
+        return r + " " + self;
+    });
+}
+
 // ab_tagidx <T|M> <reference index> <feature index> : a tag / multi-tag with ONE reference and ONE feature, asked for the data of
 // reference / feature number <index> through every entry point that takes an index      => ok <answer class per entry point …>
 DRV_OP(ab_tagidx) {
